@@ -129,6 +129,10 @@ dbus_bool_t bus_service_remove_owner (BusService *s, DBusConnection *c, BusTrans
 }
 static dbus_uint32_t vf_next_serial = 1000;
 dbus_uint32_t _dbus_connection_get_next_client_serial (DBusConnection *c) { return vf_next_serial++; }
+static int vf_pending_fds_now, n_closed;
+int _dbus_connection_get_pending_fds_count (DBusConnection *c) { return vf_pending_fds_now; }
+int bus_context_get_pending_fd_timeout (BusContext *c) { return 4242; }
+void dbus_connection_close (DBusConnection *c) { n_closed++; }
 dbus_bool_t bus_containers_connection_is_contained (DBusConnection *c, const char **path, const char **type, const char **name) { return FALSE; }
 
 /* ---- reference: set of (caller, callee, serial) triples ---- */
@@ -305,6 +309,22 @@ void harness (void)
         VF_ASSERT (g_mm_add == 0 || g_mm_disc_monitor >= 1, "monitor rules that were added are withdrawn");
         VF_WITNESS_OPT ("becoming a monitor failed");
       }
+  }
+#elif OP == 7
+  {
+    /* C15: surplus descriptors are held only while the pending-fd timer runs.  One-step induction on
+     * check_pending_fds_cb: invariant "timer armed <=> the connection has pending (unconsumed) descriptors". */
+    static struct DBusTimeout pt; int old = vf_range (0, 1000), neu; BusConnectionData *d = cdp[0];
+    vf_pending_fds_now = neu = vf_range (0, 1000);
+    d->pending_unix_fds_timeout = &pt; d->n_pending_unix_fds = old; pt.enabled = (old > 0); pt.restarts = 0;
+    check_pending_fds_cb (cnp[0]);
+    VF_ASSERT (d->n_pending_unix_fds == neu, "the recorded count follows the connection's pending-descriptor count");
+    VF_ASSERT (pt.enabled == (neu > 0), "the pending-fd timer is armed exactly while descriptors are pending");
+    if (old > 0 && neu > 0) VF_ASSERT (pt.restarts == 0, "the timer is not restarted while descriptors stay pending (a peer cannot keep it from firing by trickling descriptors)");
+    if (old == 0 && neu > 0) { VF_ASSERT (pt.restarts == 1 && pt.interval == 4242, "armed with the configured pending_fd_timeout"); VF_WITNESS_OPT ("timer armed"); }
+    n_closed = 0;
+    pending_unix_fds_timeout_cb (cnp[0]);
+    VF_ASSERT (n_closed == 1, "when the timer fires the connection is closed");
   }
 #elif OP == 4
   {
